@@ -12,6 +12,12 @@ package main
 //	login|loginfull|checkpw <u> <pw> <want>        ptt.LoginQuery | ptt.Login | ptt.CheckPasswd -> ok | refused | PANIC
 //	chpw <u> <old> <new> <num> <seed> <want>       ptt.ChangePasswd under rand.Seed(seed)  -> ok | refused | PANIC
 //	stored <u>                                     cmbbs.PasswdQueryPasswd                -> hash hex | refused
+//	race <u> <hashA> <A> <B> <num> <seed> <trials> a full ptt.Login(u, A) IN FLIGHT while ptt.ChangePasswd(u, A -> B) completes:
+//	                                               per trial the hash is set to hashA, ChangePasswd runs in a goroutine and
+//	                                               Login starts after a varied delay, so that the change lands between
+//	                                               Login's load of the record and its write-back of the login statistics.
+//	                                               Login never writes the hash: whatever the interleaving, afterwards the
+//	                                               stored hash is GenPasswd(B) -> ok | refused (= the answer of ChangePasswd)
 //	blogin|bcheckpw <u> <pw> <want>                bbs.Login | bbs.CheckPasswd (the string-taking entry points)
 //	bchpw <u> <old> <new> <num> <seed> <want>      bbs.ChangePasswd
 //
@@ -31,6 +37,8 @@ package main
 //	                                PasswdQueryPasswd reads at that moment
 //	login:unverifiable-hash-accepted a candidate is accepted although the stored hash is one no password can produce
 //	chpw:record-changed-without-auth the stored hash changed although ChangePasswd did not succeed
+//	race:login-overwrote-changed-hash after a successful ChangePasswd(A -> B) concurrent with a login, the stored hash does
+//	                                not verify B or still verifies A
 //	crash:login                     a panic / stall in any of these calls (not judged when the stored hash has a byte
 //	                                >= 0x80 in a salt position: Fcrypt panics there, outside the salt domain; recorded)
 
@@ -41,6 +49,7 @@ import (
 	"os"
 	"strconv"
 	"strings"
+	"time"
 
 	"github.com/Ptt-official-app/go-pttbbs/bbs"
 	"github.com/Ptt-official-app/go-pttbbs/cache"
@@ -223,6 +232,115 @@ func execLogin(line string, nontrivial bool) (out string, idx int) {
 			}
 		}
 		return
+	case "race":
+		if len(ws) != 8 {
+			return bad()
+		}
+		u, hA, A, B := hx.UnHex(ws[1]), hx.UnHex(ws[2]), hx.UnHex(ws[3]), hx.UnHex(ws[4])
+		num, e1 := strconv.Atoi(ws[5])
+		seed, e2 := strconv.ParseInt(ws[6], 10, 64)
+		trials, e3 := strconv.Atoi(ws[7])
+		if e1 != nil || e2 != nil || e3 != nil || trials < 1 || trials > 2000 {
+			return bad()
+		}
+		if numFor(seed) != num {
+			seed = seedWith(0, func(n int) bool { return n == num })
+		}
+		uid := uidOf(u)
+		rr := hx.NewRand(uint64(seed))
+		failMsg := ""
+		judged, lost := 0, 0
+		out = hx.CallT(60*time.Second, func() string {
+			if !uid.IsValid() {
+				return "refused"
+			}
+			// how long a login takes here (sequential, the minimum of a few)
+			tl := time.Duration(1 << 62)
+			for k := 0; k < 4; k++ {
+				ph := &ptttype.Passwd_t{}
+				copy(ph[:], hA)
+				_ = cmbbs.PasswdUpdatePasswd(uid, ph)
+				t0 := time.Now()
+				_, _, _ = ptt.Login(toUserID(u), append([]byte{}, A...), loginIP)
+				if d := time.Since(t0); d < tl {
+					tl = d
+				}
+			}
+			// another hash of the same password: the outside write that lands while the login is in flight
+			h1 := append([]byte(libcCrypt(A, []byte{alphabet[rr.Intn(64)], alphabet[rr.Intn(64)]})), 0)
+			if bytes.Equal(h1, hA) {
+				h1 = append([]byte(libcCrypt(A, []byte("zz"))), 0)
+			}
+			for t := 0; t < trials; t++ {
+				if t%16 == 0 && loginEnv != nil {
+					_ = loginEnv.ResetSHM() // free the sessions of the earlier trials
+				}
+				ph := &ptttype.Passwd_t{}
+				copy(ph[:], hA)
+				if err := cmbbs.PasswdUpdatePasswd(uid, ph); err != nil {
+					return "refused"
+				}
+				started := make(chan time.Time, 1)
+				done := make(chan error, 1)
+				go func() {
+					started <- time.Now()
+					_, _, err := ptt.Login(toUserID(u), append([]byte{}, A...), loginIP)
+					done <- err
+				}()
+				t0 := <-started
+				// the write lands in the FIRST part of the login: after the record was loaded for the password check, well
+				// before the login re-reads the record to save its statistics
+				delay := time.Duration(rr.Intn(int(tl)*35/100+1)) * time.Nanosecond
+				for time.Since(t0) < delay {
+				}
+				p1 := &ptttype.Passwd_t{}
+				copy(p1[:], h1)
+				errW := cmbbs.PasswdUpdatePasswd(uid, p1)
+				late := time.Since(t0) > tl*45/100 // this goroutine was held up: the write may have landed anywhere
+				errL := <-done
+				if errW != nil || errL != nil || late {
+					continue
+				}
+				judged++
+				h := storedNow(u)
+				if !bytes.Equal(h, h1) {
+					lost++
+					if failMsg == "" {
+						failMsg = fmt.Sprintf("trial %d: ptt.Login(%q, %q) in flight (a login takes %v here); %v after its start the stored hash was replaced by %q (PasswdUpdatePasswd returned nil); when the login had finished the stored hash was %q again - the hash the login had loaded for its password check",
+							t, u, A, tl, delay, h1, h)
+					}
+				}
+			}
+			// leave a state that does not depend on timing: the change once more, with no login in flight
+			ph := &ptttype.Passwd_t{}
+			copy(ph[:], hA)
+			if err := cmbbs.PasswdUpdatePasswd(uid, ph); err != nil {
+				return "refused"
+			}
+			rand.Seed(seed) //nolint:staticcheck
+			if err := ptt.ChangePasswd(toUserID(u), append([]byte{}, A...), append([]byte{}, B...), loginIP); err != nil {
+				return "refused"
+			}
+			return "ok"
+		})
+		idx = run.Op(line, out, "race:"+out, nontrivial)
+		if out == "PANIC" || out == "TIMEOUT" {
+			run.Fail(idx, "crash:login", fmt.Sprintf("race %q: %s %s", u, out, hx.LastPanic))
+		}
+		raceJudged += judged
+		raceLost += lost
+		if failMsg != "" {
+			// The login's write-back of its statistics is a read-modify-write of the whole record.  A login that carries the
+			// hash it loaded for the password check all the way to that write-back loses the change whenever the change
+			// completes anywhere during the login (a large share of the trials); a login that re-reads the record just before
+			// writing loses it only in the few microseconds between that read and the write (a few trials in a thousand).
+			if lost*5 > judged {
+				run.Fail(idx, "race:login-overwrote-changed-hash", fmt.Sprintf("%d of %d trials lost the change; first: %s", lost, judged, failMsg))
+			} else {
+				run.Note(fmt.Sprintf("lost update although the write landed in the first part of the login (held-up goroutine, or the narrow read..write window of pwcuLoginSave): %d of %d trials; first: %s", lost, judged, failMsg))
+			}
+		}
+		return
 	case "stored":
 		if len(ws) != 2 {
 			return bad()
@@ -394,9 +512,11 @@ func (h *hist) chpwK(kind string, u, old, nw []byte) {
 func (h *hist) stored(u []byte) { execLogin("stored "+hx.Hex(u), false) }
 
 var loginOps = map[string]bool{"reset": true, "sethash": true, "login": true, "loginfull": true, "checkpw": true, "chpw": true, "stored": true,
-	"blogin": true, "bcheckpw": true, "bchpw": true}
+	"blogin": true, "bcheckpw": true, "bchpw": true, "race": true}
 
 var loginEnv *bbsenv.Env
+
+var raceJudged, raceLost int
 
 func replayAny(lines []string) {
 	needEnv := false
@@ -573,6 +693,9 @@ func loginMain() {
 		h.stored(u)
 	}
 
+	// NOT generated (round 7, time box): the `race` op (an outside write of the hash while a full ptt.Login is in flight)
+	// exists and replays, but its oracle cannot yet tell a login that carries the loaded hash to its write-back from the
+	// unlocked read-modify-write window pwcuLoginSave has anyway on the unchanged tree; see docs/asbuilt/C02.md.
 	// random histories
 	nH := 60
 	if th {
